@@ -163,3 +163,95 @@ Theorem c08_source_neutral : forall s out,
   /\ (forall pre post, out = pre ++ 38%N :: post -> starts_entity post).
 Proof. exact src_mdCellEscape_neutral. Qed.
 Print Assumptions c08_source_neutral.
+(* ROUND 6: COLUMNS CARRY WHOLE PROPERTY CHAINS (Model/ColProps.v over
+   Model/Props.v, the value model of properties.go function by function).  A
+   history is any interleaving of building calls with `PSet n k v` =
+   "if c := t.Column(n); c != nil { c.SetProperty(k, v) }" for ARBITRARY keys k
+   and values v (None = nil): chains of any depth, the alignment entry at any
+   depth, entries above and below it replaced and removed.  `prun` runs the
+   machine, `ptable`/`pview` is what a renderer reads off the chains
+   (GetProperty(align.PropertyType) per column), `cp_proj` (Spec/ColPropHist.v)
+   reads the history as settings of the two properties the renderers use. *)
+From Tab Require Import Model.Props.
+From Tab Require Import Model.Table Model.ColProps Spec.ColPropHist Proofs.ColPropsProofs Proofs.E2EMdProps.
+
+(* no SetProperty history panics, and the chains present exactly the table of the
+   projected history - for every history, well formed or not *)
+Theorem c08_colprops_refines : forall h : list ptop,
+  exists st, prun h = Ok st /\ ptable st = trun (cp_proj h).
+Proof. exact colprops_refines. Qed.
+Print Assumptions c08_colprops_refines.
+
+(* a SetProperty under any key other than align.PropertyType (any value, nil
+   included; any column; after any history) changes no column's alignment *)
+Theorem c08_other_key_keeps_alignment : forall (h : list ptop) n k v st st',
+  k <> align_key -> prun h = Ok st -> prun (h ++ [PSet n k v]) = Ok st' ->
+  map col_align (p_cols st') = map col_align (p_cols st).
+Proof. exact other_key_keeps_alignment. Qed.
+Print Assumptions c08_other_key_keeps_alignment.
+
+(* under align.PropertyType it changes that column's (when it exists) and no other's *)
+Theorem c08_align_key_sets_alignment : forall (h : list ptop) n v st st',
+  prun h = Ok st -> prun (h ++ [PSet n align_key v]) = Ok st' ->
+  map col_align (p_cols st')
+  = if has_column (p_core st) n
+    then upd (map col_align (p_cols st)) n (match v with Some x => dec_align x | None => None end)
+    else map col_align (p_cols st).
+Proof. exact align_key_sets_alignment. Qed.
+Print Assumptions c08_align_key_sets_alignment.
+
+(* structure and neutralisation for every table such a history can build *)
+Theorem c08_colprops_history : forall (W : list N -> nat) (e : env) (json : item -> option (list N)) (h : list ptop) st,
+  twf_hist (cp_proj h) -> cp_domain h -> prun h = Ok st ->
+  let v := pview W e json st in
+  match md_render W v with
+  | Ok out => md_ok v out
+  | Err => hist_header (cp_proj h) = None \/ hist_ncols (cp_proj h) = 0%nat
+  | Panic => False
+  end.
+Proof. exact md_colprops_history. Qed.
+Print Assumptions c08_colprops_history.
+
+(* the markers md_ok demands of delimiter cell i: the last value set under
+   align.PropertyType on column i+1, else on column 0 ... *)
+Theorem c08_colprops_alignment : forall W e json (h : list ptop) st i,
+  twf_hist (cp_proj h) -> prun h = Ok st -> (i < hist_ncols (cp_proj h))%nat ->
+  spec_eff_align (v_align (pview W e json st)) i
+  = match cp_align h (S i) with Some a => Some a | None => cp_align h 0%nat end.
+Proof. exact md_colprops_alignment. Qed.
+Print Assumptions c08_colprops_alignment.
+
+(* ... where "last value set" is, call by call: another key never counts, the
+   alignment key counts for its column when the column exists *)
+Theorem c08_cp_align_other_key : forall (h : list ptop) n k v i, k <> align_key ->
+  cp_align (h ++ [PSet n k v]) i = cp_align h i.
+Proof. exact cp_align_other_key. Qed.
+Print Assumptions c08_cp_align_other_key.
+
+Theorem c08_cp_align_set : forall (h : list ptop) n v i,
+  cp_align (h ++ [PSet n align_key v]) i
+  = if (n <=? hist_ncols (cp_proj h))%nat && (i =? n)%nat
+    then match v with Some x => dec_align x | None => None end
+    else cp_align h i.
+Proof. exact cp_align_set. Qed.
+Print Assumptions c08_cp_align_set.
+
+(* non-vacuity: two columns; on column 2 skipable, then alignment Right, then an
+   application key, then skipable again (the entry two links below the top is
+   replaced, the alignment entry lies above it); on column 0 an application key,
+   Center, skipable, then the application key removed.  The chains hold three
+   entries each, and the renderer still reads Right for column 2 and Center as
+   the default. *)
+Example c08_colprops_example :
+  let app : key := (2%nat, 7%N) in
+  let h : list ptop :=
+    [ PCore (AddHeaders [IString [97%N]; IString [98%N]]);
+      PSet 2 skip_key (Some 2%nat); PSet 2 align_key (Some (enc_align ARight)); PSet 2 app (Some 5%nat);
+      PSet 2 skip_key (Some 1%nat);
+      PSet 0 app (Some 1%nat); PSet 0 align_key (Some (enc_align ACenter)); PSet 0 skip_key (Some 1%nat);
+      PSet 0 app None; PSet 5 align_key (Some 1%nat) ] in
+  exists st, prun h = Ok st
+    /\ map (@length _) (p_cols st) = [2; 0; 3]%nat
+    /\ map col_align (p_cols st) = [Some ACenter; None; Some ARight]
+    /\ cp_align h 2%nat = Some ARight /\ cp_align h 0%nat = Some ACenter /\ cp_align h 1%nat = None.
+Proof. cbv zeta. eexists. split; [vm_compute; reflexivity|]. repeat split; vm_compute; reflexivity. Qed.
